@@ -58,6 +58,8 @@ def generate(rng, tier):
             lines.append('ppu.w 0x41 %d' % rng.randrange(256))
             lines.append('ppu.w 0x45 %d' % rng.choice([0, 10, 143, 144, 153, rng.randrange(160)]))
             lines.append('ppu.tick %d' % rng.randrange(1, 9000))
+            if rng.random() < 0.3:
+                lines.append('ppu.w 0x44 %d' % rng.randrange(256))     # store to the read-only LY
         cases.append(('combo%d' % i, lines))
     # LCD off: nothing may be requested
     cases.append(('off', ['ppu.w 0x41 0x78', 'ppu.tick 5000', 'ppu.w 0x40 0x11', 'ppu.tick 40000',
@@ -75,6 +77,17 @@ def generate(rng, tier):
                          'ppu.tick %d' % rng.choice([0, 1, 50, 3000]), 'ppu.wi 0x40 0x91', 'ppu.tick %d' % (L.FRAME + 400)]
                 cases.append(('pc%d' % npc, lines))
                 npc += 1
+    # a single source with stores to the read-only LY register at arbitrary points: no request may appear or vanish
+    nly = 0
+    for src in (0x40, 0x08, 0x10, 0x20):
+        for rep in range(2 if tier == 'quick' else 12):
+            lyc = rng.choice([0, 1, 40, 100, 143, 144, 153])
+            lines = ['ppu.w 0x45 %d' % lyc, 'ppu.w 0x41 %d' % src, 'ppu.tick %d' % (lyc * 114 % L.FRAME + rng.randrange(2, 110))]
+            for _ in range(6):
+                lines += ['ppu.wi 0x44 %d' % rng.randrange(256), 'ppu.tick %d' % rng.choice([1, 2, 50, 114, 300, rng.randrange(1, 17556)])]
+            lines.append('ppu.tick %d' % (L.FRAME + 200))
+            cases.append(('ly%d' % nly, lines))
+            nly += 1
     # register writes themselves request nothing, LCD on or off (IF is read straight after each write)
     nwr = 12 if tier == 'quick' else 150
     for i in range(nwr):
